@@ -11,6 +11,8 @@ import Model.Spec.MathSpec
 import Proofs.Lemmas.C13Exact
 import Proofs.Lemmas.C13Nothing
 import Proofs.Lemmas.C13Perm
+import Proofs.Lemmas.C13F64Inst
+import Proofs.Lemmas.C13Interp
 
 namespace C13
 open Math
@@ -298,6 +300,180 @@ permutation p-value (any ordered field). -/
 theorem p_scale_invariant {K : Type} [Field K] [LinearOrder K] [IsStrictOrderedRing K] (c : K) (hc : 0 < c)
     (x1 x2 : List K) : pPerm (x1.map (c * ·)) (x2.map (c * ·)) = pPerm x1 x2 :=
   pPerm_map _ (fun _ _ h => mul_lt_mul_of_pos_left h hc) x1 x2
+
+/-! ## float64 samples -/
+
+open F64 in
+/-- **float_order** — restricted to finite values, `F64.lt` is the strict order and `F64.eq` the
+equality of the exact rational values `sval` (= ±mant·2^expo; both zeros have value 0): a strict
+total order, proved from the bit patterns for all signs. `LawfulVal FinF` packages this. -/
+theorem float_order (a b : Bits) (ha : isFinite a = true) (hb : isFinite b = true) :
+    (F64.lt a b = true ↔ sval a < sval b) ∧ (F64.eq a b = true ↔ sval a = sval b) ∧
+    (F64.lt a b = true ∨ F64.eq a b = true ∨ F64.lt b a = true) :=
+  ⟨lt_iff_sval a b ha hb, eq_iff_sval a b ha hb, by
+    rw [lt_iff_sval a b ha hb, eq_iff_sval a b ha hb, lt_iff_sval b a hb ha]
+    exact lt_trichotomy _ _⟩
+
+open F64 in
+/-- **new_sample_f64** — `NewSample` on finite float64 measurements: the same measurements, in
+ascending order of their exact values. -/
+theorem new_sample_f64 (vals : List Bits) (t : Thresholds) (hc : ∀ v ∈ vals, Canon v) :
+    (newSample vals t).values.Perm vals ∧
+    (newSample vals t).values.Pairwise (fun a b => sval a ≤ sval b) := by
+  obtain ⟨l, rfl⟩ := lift_vals vals hc
+  show (sortVals (α := Bits) (l.map FinF.val)).Perm _ ∧ (sortVals (α := Bits) (l.map FinF.val)).Pairwise _
+  rw [sortVals_val]
+  exact ⟨(sortVals_perm l).map _, List.pairwise_map.mpr (sortVals_pairwise l)⟩
+
+open F64 in
+/-- **exact_summary_f64** — `exact_summary_spec` for float64 samples (the model instance the driver
+runs): on a non-empty sample of finite values sorted by value, the centre is a value of maximal
+multiplicity and no value of the same multiplicity is smaller; Lo / Hi are the smallest / largest
+value; confidence 1; a warning is raised exactly when two values differ. (−0 is identified with +0:
+`Canon` asks for the canonical zero, as the observables do.) -/
+theorem exact_summary_f64 (vals : List Bits) (t : Thresholds) (hc : ∀ v ∈ vals, Canon v) (hne : vals ≠ [])
+    (hs : vals.Pairwise (fun a b => sval a ≤ sval b)) :
+    ∃ r, Exact.summary (⟨vals, t⟩ : Sample Bits) = some r ∧
+      r.center ∈ vals ∧
+      (∀ x, vals.count x ≤ vals.count r.center) ∧
+      (∀ x ∈ vals, vals.count x = vals.count r.center → sval r.center ≤ sval x) ∧
+      (∃ lo ∈ vals, r.lo = .fin lo ∧ ∀ x ∈ vals, sval lo ≤ sval x) ∧
+      (∃ hi ∈ vals, r.hi = .fin hi ∧ ∀ x ∈ vals, sval x ≤ sval hi) ∧
+      r.confidence = F64.one ∧
+      (r.warnings ≠ [] ↔ ∃ x ∈ vals, ∃ y ∈ vals, x ≠ y) := by
+  obtain ⟨l, rfl⟩ := lift_vals vals hc
+  have hne' : (⟨l, t⟩ : Sample FinF).values ≠ [] := by
+    intro h; apply hne; simp only at h; simp [h]
+  have hs' : (⟨l, t⟩ : Sample FinF).values.Pairwise (· ≤ ·) := by
+    have := List.pairwise_map.mp hs
+    exact this
+  obtain ⟨r, hr, hmem, hmax, hmin, ⟨lo, hlo, hlo1, hlo2⟩, ⟨hi, hhi, hhi1, hhi2⟩, hconf, hw⟩ :=
+    exact_summary_spec (⟨l, t⟩ : Sample FinF) hne' hs'
+  obtain ⟨r', hr', hc', hl', hh', hcf', hw'⟩ := summary_val l t r hr
+  have cnt : ∀ x : FinF, (l.map FinF.val).count x.val = l.count x :=
+    fun x => List.count_map_of_injective l FinF.val FinF.val_injective x
+  simp only at hmem hmax hmin hlo hlo2 hhi hhi2 hw
+  refine ⟨r', hr', ?_, ?_, ?_, ?_, ?_, ?_, ?_⟩
+  · rw [hc']; exact List.mem_map_of_mem hmem
+  · intro x
+    rw [hc', cnt]
+    by_cases hx : x ∈ l.map FinF.val
+    · obtain ⟨y, _, rfl⟩ := List.mem_map.mp hx
+      rw [cnt]; exact hmax y
+    · rw [List.count_eq_zero.mpr hx]; exact Nat.zero_le _
+  · intro x hx hcount
+    obtain ⟨y, _, rfl⟩ := List.mem_map.mp hx
+    rw [hc', cnt, cnt] at hcount
+    rw [hc']
+    exact hmin y hcount
+  · refine ⟨lo.val, List.mem_map_of_mem hlo, hl' lo hlo1, ?_⟩
+    intro x hx
+    obtain ⟨y, hy, rfl⟩ := List.mem_map.mp hx
+    exact hlo2 y hy
+  · refine ⟨hi.val, List.mem_map_of_mem hhi, hh' hi hhi1, ?_⟩
+    intro x hx
+    obtain ⟨y, hy, rfl⟩ := List.mem_map.mp hx
+    exact hhi2 y hy
+  · rw [hcf', hconf]
+  · rw [show r'.warnings ≠ [] ↔ r.warnings ≠ [] from not_congr hw', hw]
+    constructor
+    · rintro ⟨x, hx, y, hy, hxy⟩
+      exact ⟨x.val, List.mem_map_of_mem hx, y.val, List.mem_map_of_mem hy, fun h => hxy (FinF.ext' h)⟩
+    · rintro ⟨x, hx, y, hy, hxy⟩
+      obtain ⟨x', hx', rfl⟩ := List.mem_map.mp hx
+      obtain ⟨y', hy', rfl⟩ := List.mem_map.mp hy
+      exact ⟨x', hx', y', hy', fun h => hxy (by rw [h])⟩
+
+open F64 in
+/-- **nothing_summary_f64_odd** — `AssumeNothing.Summary` on float64 samples of odd size n ≤ 69
+(finite values, sorted), for any external QuantileCI result whose band contains the middle: unless
+the difference of the middle value and its upper neighbour overflows (class X1), the centre is the
+middle VALUE OF THE SAMPLE bit-exactly (`a + 0·(b − a) = a` in float64), Lo / Hi are sample values
+or ∓∞ with Lo ≤ centre ≤ Hi in exact value, the confidence is the external one, and a warning is
+raised exactly when an end is infinite. -/
+theorem nothing_summary_f64_odd (vals : List Bits) (t : Thresholds) (conf : Bits) (ci : Nothing.QCI)
+    (tab : List (Nat × Nat)) (hc : ∀ v ∈ vals, Canon v)
+    (hs : vals.Pairwise (fun a b => sval a ≤ sval b))
+    (h1 : 1 ≤ vals.length) (h70 : vals.length ≤ 70) (hodd : vals.length % 2 = 1)
+    (hfin : ∀ a b, vals[vals.length / 2]? = some a → vals[vals.length / 2 + 1]? = some b →
+      isFinite (F64.sub b a) = true)
+    (hlo : ci.loOrder ≤ (vals.length + 1) / 2) (hhi : vals.length / 2 + 1 ≤ ci.hiOrder) :
+    ∃ r c, Nothing.summary (⟨vals, t⟩ : Sample Bits) conf ci tab = some r ∧
+      vals[vals.length / 2]? = some c ∧ r.center = c ∧
+      (r.lo = .negInf ∨ ∃ a ∈ vals, r.lo = .fin a ∧ sval a ≤ sval c) ∧
+      (r.hi = .posInf ∨ ∃ a ∈ vals, r.hi = .fin a ∧ sval c ≤ sval a) ∧
+      r.confidence = ci.confidence ∧
+      (r.warnings ≠ [] ↔ (r.lo = .negInf ∨ r.hi = .posInf)) := by
+  have hmid : vals.length / 2 < vals.length := by omega
+  have hcq : vals[vals.length / 2]? = some vals[vals.length / 2] := List.getElem?_eq_getElem hmid
+  have hq : Nothing.quantileHalf vals = some vals[vals.length / 2] := by
+    rw [quantileHalf_odd_f64 vals h1 h70 hodd hc hfin, hcq]
+  obtain ⟨r, hr, hcen, hl0, hl1, hh0, hh1, hconf, hw⟩ :=
+    summary_shape (⟨vals, t⟩ : Sample Bits) conf ci tab _ hq (by simp only; omega) (by omega)
+  simp only at hl1 hh0 hh1
+  refine ⟨r, _, hr, hcq, hcen, ?_, ?_, hconf, hw⟩
+  · by_cases hl : ci.loOrder < 1
+    · exact Or.inl (hl0 hl)
+    · obtain ⟨a, ha, hra⟩ := hl1 (by omega)
+      exact Or.inr ⟨a, List.mem_of_getElem? ha, hra,
+        sorted_get?_le vals hs _ _ (by omega) a _ ha hcq⟩
+  · by_cases hh : ci.hiOrder - 1 ≥ vals.length
+    · exact Or.inl (hh0 hh)
+    · obtain ⟨a, ha, hra⟩ := hh1 (by omega)
+      exact Or.inr ⟨a, List.mem_of_getElem? ha, hra,
+        sorted_get?_le vals hs _ _ (by omega) _ a hcq ha⟩
+
+open F64 in
+/-- **nothing_summary_f64_even_partial** — float64 samples of even size n ≤ 70 (finite, sorted), any
+external QuantileCI result whose band contains the middle: the centre is
+`a + 0.5*(b − a)` evaluated in float64 on the two middle values a ≤ b of the sample; Lo is −∞ or a
+sample value ≤ a, Hi is +∞ or a sample value ≥ b (exact values); confidence and warning as for odd n.
+GAP (why `_partial`): that the rounded interpolation itself lies in [a, b] (hence Lo ≤ centre ≤ Hi)
+is not proved at the float level — it needs monotonicity and exactness of `F64.add`/`F64.sub`,
+which the float64 lemma library does not provide yet, and it is false exactly in class X1
+(`median_overflow_witness`). The search layer checks |centre − (a+b)/2| ≤ 2⁻⁵²·max(|a|,|b|) + 2⁻¹⁰⁷⁴
+and Lo ≤ centre ≤ Hi in exact rationals on every case; in exact arithmetic it is
+`nothing_summary_spec`. -/
+theorem nothing_summary_f64_even_partial (vals : List Bits) (t : Thresholds) (conf : Bits) (ci : Nothing.QCI)
+    (tab : List (Nat × Nat))
+    (hs : vals.Pairwise (fun a b => sval a ≤ sval b))
+    (h2 : 2 ≤ vals.length) (h70 : vals.length ≤ 70) (heven : vals.length % 2 = 0)
+    (hlo : ci.loOrder ≤ (vals.length + 1) / 2) (hhi : vals.length / 2 + 1 ≤ ci.hiOrder) :
+    ∃ r a b, Nothing.summary (⟨vals, t⟩ : Sample Bits) conf ci tab = some r ∧
+      vals[vals.length / 2 - 1]? = some a ∧ vals[vals.length / 2]? = some b ∧ sval a ≤ sval b ∧
+      r.center = F64.add a (F64.mul half (F64.sub b a)) ∧
+      (r.lo = .negInf ∨ ∃ x ∈ vals, r.lo = .fin x ∧ sval x ≤ sval a) ∧
+      (r.hi = .posInf ∨ ∃ x ∈ vals, r.hi = .fin x ∧ sval b ≤ sval x) ∧
+      r.confidence = ci.confidence ∧
+      (r.warnings ≠ [] ↔ (r.lo = .negInf ∨ r.hi = .posInf)) := by
+  have h1 : vals.length / 2 - 1 < vals.length := by omega
+  have h2' : vals.length / 2 < vals.length := by omega
+  have ha : vals[vals.length / 2 - 1]? = some vals[vals.length / 2 - 1] := List.getElem?_eq_getElem h1
+  have hb : vals[vals.length / 2]? = some vals[vals.length / 2] := List.getElem?_eq_getElem h2'
+  have hq := quantileHalf_even_f64 vals h2 h70 heven _ _ ha hb
+  obtain ⟨r, hr, hcen, hl0, hl1, hh0, hh1, hconf, hw⟩ :=
+    summary_shape (⟨vals, t⟩ : Sample Bits) conf ci tab _ hq (by simp only; omega) (by omega)
+  simp only at hl1 hh0 hh1
+  refine ⟨r, _, _, hr, ha, hb, sorted_get?_le vals hs _ _ (by omega) _ _ ha hb, hcen, ?_, ?_, hconf, hw⟩
+  · by_cases hl : ci.loOrder < 1
+    · exact Or.inl (hl0 hl)
+    · obtain ⟨x, hx, hrx⟩ := hl1 (by omega)
+      exact Or.inr ⟨x, List.mem_of_getElem? hx, hrx, sorted_get?_le vals hs _ _ (by omega) x _ hx ha⟩
+  · by_cases hh : ci.hiOrder - 1 ≥ vals.length
+    · exact Or.inl (hh0 hh)
+    · obtain ⟨x, hx, hrx⟩ := hh1 (by omega)
+      exact Or.inr ⟨x, List.mem_of_getElem? hx, hrx, sorted_get?_le vals hs _ _ (by omega) _ x hb hx⟩
+
+/-- **combine_symmetric** (float64) — `math.Min(1, 2*math.Min(l1.P, l2.P))` as the model evaluates it
+is symmetric in the two one-sided results, for all bit patterns; consequently exchanging the samples
+(which exchanges the two one-sided calls) leaves the p-value of `AssumeNothing.Compare` unchanged
+whenever both two-sided calls succeed. -/
+theorem compare_p_swap {α : Type} (s1 s2 : Sample α) (a b : TestResult) (pd pd' : F64.Bits)
+    (ha : ∃ p, a = .ok p) (hb : ∃ p, b = .ok p) :
+    (Nothing.compare s1 s2 ⟨.ok pd, a, b⟩).p = (Nothing.compare s2 s1 ⟨.ok pd', b, a⟩).p := by
+  obtain ⟨pa, rfl⟩ := ha
+  obtain ⟨pb, rfl⟩ := hb
+  simp only [Nothing.compare, Nothing.combine, fmin_comm pa pb]
 
 /-! ## instances of the hypotheses, and the float64 limits of the exact-arithmetic theorems -/
 
